@@ -274,6 +274,16 @@ def run_impl(case: dict, res_override: float | None = None) -> dict:
     g.set_direction("cw" if case["cw"] else "ccw")
     s = case["start"]
     g.move(x=s[0], y=s[1], z=s[2])
+    if case["rel"]:
+        g.set_distance_mode("relative")
+    if case.get("warm_near") and not case.get("switch"):
+        wn = case["warm_near"]
+        g.move_absolute(x=wn[0], y=wn[1], z=wn[2])
+        try:
+            _dispatch(g.trace, case)
+        except Exception:  # noqa
+            pass
+        g.move_absolute(x=s[0], y=s[1], z=s[2])
     warm = case.get("warm")
     if warm and not case.get("switch"):
         # the same request traced once before on this builder at another resolution (state kept between calls
@@ -283,10 +293,8 @@ def run_impl(case: dict, res_override: float | None = None) -> dict:
             _dispatch(g.trace, case)
         except Exception:  # noqa
             pass
-        g.move(x=s[0], y=s[1], z=s[2])
+        g.move_absolute(x=s[0], y=s[1], z=s[2])
         g.set_resolution(res)
-    if case["rel"]:
-        g.set_distance_mode("relative")
     res_eff = g.state.resolution
     n0 = len(w.lines)
     calls = []
@@ -409,6 +417,14 @@ class Stage:
             kind = "poly" if shape == "polyline" else "controls"
             self.todo.append((kind, case, impl, len(self.lines), 1))
             self.lines.append(poly_line(kind, case))
+        if shape == "spline" and stage1 and call is not None and "function" in call:
+            # spline(): `total_length = self.estimate_length(500, spline_function)` - of the very curve being traced
+            th = np.linspace(0, 1, 500)
+            est = float(np.linalg.norm(np.diff(np.asarray(call["function"](th), dtype=float), axis=0), axis=1).sum())
+            if abs(est - call["length"]) > 1e-9 * max(1.0, est):
+                self.R.disagree("tracer-spline-length", case_repr(case), call["length"], est)
+            else:
+                self.R.count("stage1:spline-length-agrees")
         if shape in ("spline", "parametric") and stage1 and call is not None:
             nrec = len(call["thetas"]) if "thetas" in call else 0
             stride = max(1, -(-nrec // self.stride_cap)) if nrec else 1
@@ -807,6 +823,13 @@ def _gen_case(rng, shape, ratio, malformed):
             c["invalid"] = "spline-needs-two-points"
         if shape == "spline" and all(list(p) == list(s) for p in c["points"]):
             c["invalid"] = "spline-needs-two-points"
+        if shape == "spline" and not c["rel"] and not bad and lr <= 60 and len(pts) >= 2 and rng.random() < 0.9 and all(None not in q for q in pts):
+            # the same control list is traced twice on one builder: first from right next to it, then (measured)
+            # from a start far away - nothing remembered from the first trace may shape the second
+            far = [pts[0][0] + 60.0 * span * k, pts[0][1] - 20.0 * span * k, pts[0][2]]
+            c["start"] = far
+            s = far
+            c["warm_near"] = [pts[0][0] + 0.25, pts[0][1], pts[0][2]]
         if shape == "spline":
             # real sample count depends on the actual spline length; estimate from the control polygon
             P = [s] + pts
